@@ -3,7 +3,57 @@ use super::slice_oracles::PrefixCompare;
 use crate::framework::*;
 use crate::lattice::Prefixes;
 use crate::skeleton::*;
-use serde_json::json;
+use serde_json::{json, Value};
+
+/// Files with huge header tables (0x10010 program headers / 0xff20 sections, extended numbering):
+/// cuts at a boundary alphabet of positions (table starts and ends, entry boundaries +-1, middle).
+struct HugeTables;
+impl Space for HugeTables {
+    fn name(&self) -> String {
+        "files with 0x10010 program headers and 0xff20 section headers (extended numbering), 2 placements x 2 encodings: cuts at the start/end of each table +-1, after 1 / 4096 / 65535 entries +-1, in the middle, at EOF-1; both parsers".into()
+    }
+    fn size(&self) -> u64 {
+        2 * 2
+    }
+    fn describe(&self, idx: u64) -> Value {
+        json!({"encoding": refmodel::layout::ENCS[if idx % 2 == 0 { 2 } else { 1 }].name(), "placement": if idx / 2 == 0 { "ph-then-sh" } else { "sh-then-ph" }})
+    }
+    fn run(&self, idx: u64, out: &mut Outcome) {
+        use super::c05::*;
+        use refmodel::layout::{layout, Kind, ENCS};
+        let enc = ENCS[if idx % 2 == 0 { 2 } else { 1 }];
+        let place = if idx / 2 == 0 { Placement::PhThenSh } else { Placement::ShThenPh };
+        let (nsec, nph) = (0xff20u64, 0x10010u64);
+        let e = reference_encoding(nsec, nph, 2);
+        let shs = layout(Kind::Shdr, enc.class).size as u64;
+        let phs = layout(Kind::Phdr, enc.class).size as u64;
+        let img = make(enc, nsec, nph, 2, place, &e, shs, phs);
+        let l = img.bytes.len() as u64;
+        let mut cuts: Vec<u64> = Vec::new();
+        for (start, ent, n) in [(img.phoff, phs, nph), (img.shoff, shs, nsec)] {
+            for k in [0u64, 1, 2, 4096, 65535, n - 1, n] {
+                let p = start + k * ent;
+                cuts.extend([p.saturating_sub(1), p, p + 1]);
+            }
+            cuts.push(start + (n / 2) * ent + ent / 2);
+        }
+        cuts.extend([l - 1, l - shs, 64, 65]);
+        cuts.sort();
+        cuts.dedup();
+        let sk = crate::skeleton::Skeleton { name: format!("huge-tables/{}", enc.name()), enc, bytes: img.bytes, sites: Vec::new(), generated: true };
+        let slice = PrefixCompare::new(false);
+        let stream = super::stream_props::StreamOpenPrefix;
+        for c in cuts {
+            if c >= l {
+                continue;
+            }
+            use crate::lattice::PrefixOracle;
+            slice.check(&sk, &sk.bytes, &sk.bytes[..c as usize], out);
+            stream.check(&sk, &sk.bytes, &sk.bytes[..c as usize], out);
+        }
+        out.nontrivial(idx + 1);
+    }
+}
 
 pub fn build(tier: Tier) -> CheckDef {
     let mut spaces: Vec<Box<dyn Space>> = Vec::new();
@@ -36,6 +86,7 @@ pub fn build(tier: Tier) -> CheckDef {
         }
     }
     spaces.extend(super::stream_props::c18_stream_spaces(tier));
+    spaces.push(Box::new(HugeTables));
     CheckDef {
         prop: "C18",
         level: "model_checking",
